@@ -361,49 +361,13 @@ impl Model for SubModel {
     }
 }
 
-/// Needles for the prefilter-history family: > 32 bytes (Two-Way with a
-/// prefilter), two rare bytes.
 fn pf_needles() -> Vec<Vec<u8>> {
-    let mut v = vec![];
-    for &l in &[33usize, 40, 65] {
-        let common: Vec<u8> = b"e ".iter().copied().cycle().take(l).collect();
-        let mut a = common.clone();
-        a[0] = b'z';
-        a[l - 1] = b'q';
-        v.push(a);
-        let mut b = common.clone();
-        b[l / 2] = b'z';
-        b[l / 2 + 1] = b'q';
-        v.push(b);
-        // periodic needle with rare bytes (small-period Two-Way branch)
-        let c: Vec<u8> = b"zqee".iter().copied().cycle().take(l).collect();
-        v.push(c);
-    }
-    v
+    spaces::pf_needles()
 }
 
 fn pf_haystacks(needle: &[u8], thorough: bool) -> Vec<Vec<u8>> {
     let p = Pair::new(needle).expect("pair");
-    let (i1, i2) = (p.index1() as usize, p.index2() as usize);
-    let mut out = vec![];
-    let prefixes: &[usize] = if thorough { &[0, 100, 400, 1000, 20000] } else { &[0, 100, 1000] };
-    let ds: &[usize] = if thorough { &[0, 10, 48, 49, 50, 51, 52, 60, 70] } else { &[0, 49, 50, 51, 70] };
-    let gs: Vec<usize> = if thorough { (1..=12).collect() } else { vec![1, 2, 5, 7, 8, 9, 12] };
-    let ts: &[Option<usize>] = if thorough { &[None, Some(0), Some(1), Some(7), Some(40)] } else { &[None, Some(0), Some(7)] };
-    for &s in prefixes {
-        for &d in ds {
-            for &g in &gs {
-                for &t in ts {
-                    let mut h = spaces::pf_haystack(needle, i1, i2, b'.', s, d, g, t);
-                    // a second run of candidates and a second match after the first
-                    let tail = spaces::pf_haystack(needle, i1, i2, b'.', 3, d / 2, g, Some(2));
-                    h.extend_from_slice(&tail);
-                    out.push(h);
-                }
-            }
-        }
-    }
-    out
+    spaces::pf_haystacks(needle, p.index1() as usize, p.index2() as usize, thorough)
 }
 
 fn build_cases(thorough: bool, families: &str, max_cases: usize) -> Vec<Case> {
